@@ -381,10 +381,11 @@ func (m *bConn) startReader() {
 }
 
 type localSub struct {
-	fn   service.OnPublishFunc
-	mu   sync.Mutex
-	got  []bPkt
-	name string
+	fn    service.OnPublishFunc
+	armed int32 // the callback reports an error for live messages once its subscription is established
+	mu    sync.Mutex
+	got   []bPkt
+	name  string
 }
 
 type brokerRun struct {
@@ -808,6 +809,13 @@ func runBehaviour(steps []bStep, auth string, maxqos int, res *Result) *brokerMi
 			if _, err := r.conns[a.C].c.Write(pkt(0x82, body)); err != nil {
 				return &brokerMismatch{where + ": write: " + err.Error(), "C05"}
 			}
+		case "churn":
+			// 3 x 6 KB on a topic nobody is subscribed to: the client's 16 KiB incoming ring goes round once
+			for k := 0; k < 3; k++ {
+				if _, err := r.conns[a.C].c.Write(pkt(0x30, append(lp([]byte("zz/churn")), brokerPayload("B")...))); err != nil {
+					return &brokerMismatch{where + ": write: " + err.Error(), "C05"}
+				}
+			}
 		case "unsubscribe":
 			body := []byte{byte(a.ID >> 8), byte(a.ID)}
 			for _, f := range a.Fs {
@@ -898,13 +906,22 @@ func runBehaviour(steps []bStep, auth string, maxqos int, res *Result) *brokerMi
 				ll := l
 				l.fn = func(msg *message.PublishMessage) error {
 					ll.mu.Lock()
-					ll.got = append(ll.got, bPkt{Ty: "PUBLISH", T: string(msg.Topic()), Q: int(msg.QoS()), R: msg.Retain(), Pl: tagOf(msg.Payload()), ID: 0})
+					ll.got = append(ll.got, bPkt{Ty: "PUBLISH", T: specTopic(string(msg.Topic())), Q: int(msg.QoS()), R: msg.Retain(), Pl: tagOf(msg.Payload()), ID: 0})
 					ll.mu.Unlock()
+					// an in-process subscriber may report an error for a live message (its sink is full): that is its own
+					// business and changes nothing for the other subscribers of the message. (Not while Server.Subscribe
+					// hands over the retained messages: there an error ends the call.)
+					if atomic.LoadInt32(&ll.armed) == 1 {
+						return fmt.Errorf("in-process subscriber %s: sink full", ll.name)
+					}
 					return nil
 				}
 				r.locals[a.L] = l
 			}
-			if err := r.svr.Subscribe(a.F, byte(a.Q), &l.fn); err != nil {
+			atomic.StoreInt32(&l.armed, 0)
+			err := r.svr.Subscribe(a.F, byte(a.Q), &l.fn)
+			atomic.StoreInt32(&l.armed, 1)
+			if err != nil {
 				return &brokerMismatch{where + ": Server.Subscribe: " + err.Error(), "C01"}
 			}
 		case "apiunsubscribe":
